@@ -113,6 +113,23 @@ def outcome_of(ret):
     return 'opaque'
 
 
+class _Guard(tuple):
+    """a predicate term of a guarding prefix that also remembers the outcome taken (`.value`)."""
+    def __new__(cls, term, value):
+        o = tuple.__new__(cls, term)
+        o.value = value
+        return o
+
+
+def _bound_exceeds_wide_type(g):
+    """`bound.to_usize()` came back None: the bound does not fit into the symbol's (wide) type, so the type of the bound is
+    wider than the symbol type and converting the symbol to it loses nothing."""
+    t = tuple(g)
+    if t and t[0] == 'discr' and isinstance(t[1], tuple) and t[1] and t[1][0] == 'call' and str(t[1][1]).endswith(('::to_usize', '::to_u64', '::to_u128')):
+        return sym.discr_variant(t, getattr(g, 'value', None)) == 'None'
+    return False
+
+
 def distinguishing_predicates(paths):
     """Predicates p such that a rejecting and an accepting path share the prefix before p and differ on p."""
     rej = [r for r in paths if r.end == 'return' and outcome_of(r.ret) == 'reject']
@@ -126,7 +143,7 @@ def distinguishing_predicates(paths):
             while i < len(pa) and i < len(pb) and pa[i][0] == pb[i][0] and pa[i][1] == pb[i][1]:
                 i += 1
             if i < len(pa) and i < len(pb) and pa[i][0] == pb[i][0]:
-                out.append((pa[i][2], tuple(x[2] for x in pa[:i])))
+                out.append((pa[i][2], tuple(_Guard(x[2], x[1]) for x in pa[:i])))
     uniq = {}
     for t, prefix in out:
         k = sym.tkey(effects.strip_uid(t))
@@ -175,6 +192,9 @@ def check_no_panic_on_symbol(ctx, F):
                     pin = [(rules.inline_pure(F, t), v, bb) for t, v, bb in r.preds[:rules.preds_before(r, i)]]
                     dbmmod.harvest(d, c20._drop_wrapping_guards(pin))
                     lens = {x for t, v, _ in pin for x in sym.subterms(t) if isinstance(x, tuple) and x and x[0] == 'len'}
+                    # `slice.get(i)?` / `if let Some(..) = slice.get(i)` bound i by the slice's length as well
+                    lens |= {sym.mk_len(x[2][0]) for t, v, _ in pin for x in sym.subterms(t)
+                             if isinstance(x, tuple) and x and x[0] == 'call' and isinstance(x[1], str) and x[1].endswith(('::get', '::get_mut')) and 'slice' in x[1] and len(x[2]) == 2}
                     ok = a is not None and any(d.entails_le(a, L) for L in lens)
                     k = ('overflow-checked `symbol + c`', (e.get('span') or str(e['block'])).split('-')[0])
                     sites[k] = sites.get(k, True) and ok
@@ -236,8 +256,8 @@ def check_support_decision(ctx, F):
             if d is None:
                 continue
             n_sym += 1
-            if d == 'narrow' and any(W.depends(g, atom) == 'wide' for g in prefix):
-                continue     # narrowed comparison under a dominating guard on the wide symbol
+            if d == 'narrow' and any(W.depends(tuple(g), atom) == 'wide' or _bound_exceeds_wide_type(g) for g in prefix):
+                continue     # narrowed comparison under a dominating guard on the wide symbol (or: the bound exceeds the wide type)
             if d == 'narrow':
                 bad = 'the accept/reject outcome is decided by `%s`, in which the symbol only occurs after a possibly narrowing conversion: a far-away symbol can alias an in-support one' % sym.show(effects.strip_uid(t))[:220]
         for r in opaque_ret:
@@ -468,7 +488,7 @@ def _check_pybindings(ctx, F):
             ctx.unresolved('R3', 'support decision is taken on the un-narrowed symbol', b.defpath, 'too many paths', key=key)
             continue
         dps = distinguishing_predicates(paths)
-        narrow = [t for t, prefix in dps if W.depends(t, ('arg', 2)) == 'narrow' and not any(W.depends(g, ('arg', 2)) == 'wide' for g in prefix)]
+        narrow = [t for t, prefix in dps if W.depends(t, ('arg', 2)) == 'narrow' and not any(W.depends(tuple(g), ('arg', 2)) == 'wide' or _bound_exceeds_wide_type(g) for g in prefix)]
         if narrow:
             ctx.bad('R3', 'support decision is taken on the un-narrowed symbol', b.defpath, 'decided by ' + sym.show(narrow[0])[:200], key=key, loc=rules.loc(b))
         else:
